@@ -174,7 +174,19 @@ def _run_part(ctx, part, stop_ev):
             last_fail["frozen"] = True
             raise Violation("shrink budget exhausted")
         try:
-            info = part.run(case, ctx)
+            try:
+                info = part.run(case, ctx)
+            except Violation:
+                raise
+            except (OSError, ValueError, KeyError, IndexError, TypeError, AttributeError, AssertionError) as ex:
+                # The oracle could not interpret what the code under test produced (missing
+                # or malformed output file, unexpected line format, ...).  On a tree where the
+                # property holds this never happens (multi-seed soaks); on a changed tree it
+                # means the observable behaviour left the documented format, so it is
+                # reported as a violation with the exception as the message rather than
+                # hidden behind an infrastructure error.
+                raise Violation("oracle could not interpret the output of the code under test: %s: %s (%s)" % (
+                    type(ex).__name__, ex, traceback.format_exc().strip().splitlines()[-3].strip()))
         except Violation as v:
             last_fail["case"] = case
             last_fail["msg"] = str(v)
